@@ -1221,4 +1221,33 @@ pub open spec fn inv_pos(pools: Map<Seq<char>, Section104Holding>, ledgers: Map<
     forall|t: Seq<char>| #![trigger pool_q(pools, t)] pool_q(pools, t) + lav(ledgers, t, cur) == hq(held, t) + pend(fc, txs, c, t)
 }
 
+
+pub proof fn lemma_pend_nonneg(fc: Map<usize, Decimal>, txs: Seq<GbpTransaction>, c: int, t: Seq<char>)
+    requires txs.len() <= usize::MAX, ratios_pos(txs), fc_capped(fc, txs)
+    ensures pend(fc, txs, c, t) >= 0real
+{
+    assert forall|k: int| 0 <= k < txs.len() implies #[trigger] f_pend(fc, txs, c, t)(k) >= 0real by {
+        if txs[k].operation is Buy && txs[k].ticker@ == t {
+            let g = gfac(txs, c, k, t); lemma_rf_pos(txs, c, k, t, txs[k].date.d(), 1real);
+            let a = fc_get(fc, k as usize); assert(a >= 0real);
+            assert(a / g >= 0real) by(nonlinear_arith) requires a >= 0real, g > 0real;
+        }
+    }
+    isum_nonneg(txs.len() as int, f_pend(fc, txs, c, t));
+}
+/// C05.complete: in a covered list, the holding at a SELL line k of day i..e (all the day's purchases counted, the day's earlier
+/// sales and this one deducted) is not negative
+pub proof fn lemma_covered_sale(txs: Seq<GbpTransaction>, i: int, e: int, k: int, t: Seq<char>)
+    requires 0 <= i <= k < e <= txs.len(), txs_valid(txs), ratios_pos(txs), covered_upto(txs, txs.len() as int),
+        is_day_start(txs, i), is_day_start(txs, e), forall|j: int| i < j < e ==> !is_day_start(txs, j)
+    ensures net_total(txs, i, t) + bought_in(txs, i, e, t) - sold_in(txs, i, k + 1, t) >= 0real
+{
+    lemma_net_day(txs, i, e, t); lemma_dfac_pos(txs, i, e, t);
+    let hb = hbase(txs, i, e, t); let d = dfac(txs, i, e, t);
+    assert(net_total(txs, e, t) >= 0real);
+    assert(hb >= 0real) by(nonlinear_arith) requires hb * d >= 0real, d > 0real;
+    assert forall|j: int| k + 1 <= j < e implies #[trigger] f_sell_t(txs, t)(j) >= 0real by { assert(tx_valid(txs[j])); }
+    isum_mono(k + 1, e, f_sell_t(txs, t));
+}
+
 } // verus!
